@@ -16,9 +16,9 @@ package keeper
 //@ loop 1 invariant [nonneg] s >= 0
 
 //@ func NoMoreThanPercentOfTheSum
-//@ requires [powers] forall i int :: 0 <= i && i < len(validators) ==> validators[i].Power >= 0
-//@ requires [total] sumPow(validators, len(validators)) <= MaxTotalVotingPower
-//@ requires [percent] 1 <= percent && percent <= 100
+//@ requires [W-powers-nonneg] forall i int :: 0 <= i && i < len(validators) ==> validators[i].Power >= 0
+//@ requires [W-total-below-max-voting-power] sumPow(validators, len(validators)) <= MaxTotalVotingPower
+//@ requires [W-percent-validated] 1 <= percent && percent <= 100
 //@ let total := old(sumPow(validators, len(validators)))
 //@ loop 1 invariant [idx] 0 <= _i && _i <= len(validators)
 //@ loop 1 invariant [count] 0 <= validatorsWithPowerLessThanMaxPower && validatorsWithPowerLessThanMaxPower <= _i
@@ -583,6 +583,8 @@ package keeper
 
 //@ func Keeper.CapValidatorsPower pure
 //@ ensures [frame] S == old(S) && E == old(E) && X == old(X)
+//@ ensures [no-cap-no-change] validatorsPowerCap == 0 ==> result == validators && !$NoMoreThanPercentOfTheSum.called
+//@ ensures [cap-applied] validatorsPowerCap > 0 ==> $NoMoreThanPercentOfTheSum.called && $NoMoreThanPercentOfTheSum.validators == validators && $NoMoreThanPercentOfTheSum.percent == validatorsPowerCap && result == $NoMoreThanPercentOfTheSum.ret
 
 //@ func Keeper.ComputeNextValidators pure
 //@ let M := old(k.GetMaxProviderConsensusValidators(ctx))
